@@ -48,7 +48,7 @@ var fnWhitelist = map[string][]string{
 		"Info.Validate", "Export.Validate", "isContainedIn", "Exports.Validate", "Exports.HasExportContainingSubject", "Mapping.Validate",
 		"CreateValidationResults", "ResponsePermission.Validate", "Permissions.Validate",
 		"OperatorLimits.IsEmpty", "OperatorLimits.Validate", "ExternalAuthorization.Validate",
-		"UserScope.Validate", "SigningKeys.Validate", "Account.Validate", "AccountClaims.Validate", "GenericClaims.Validate", "AuthorizationRequestClaims.Validate", "AuthorizationResponseClaims.Validate", "TimeRange.Validate", "Limits.Validate", "User.Validate", "UserClaims.Validate", "ParseServerVersion", "Operator.validateAccountServerURL", "ValidateOperatorServiceURL", "Operator.validateOperatorServiceURLs", "Operator.Validate", "OperatorClaims.Validate", "OperatorClaims.ExpectedPrefixes", "AccountClaims.ExpectedPrefixes", "UserClaims.ExpectedPrefixes", "ActivationClaims.ExpectedPrefixes", "AuthorizationRequestClaims.ExpectedPrefixes", "AuthorizationResponseClaims.ExpectedPrefixes", "GenericClaims.ExpectedPrefixes", "Decode", "v1OperatorClaims.migrateV1", "v1UserClaims.migrateV1", "v1ActivationClaims.migrateV1", "SigningKeys.Add", "v1AccountClaims.migrateV1",
+		"UserScope.Validate", "SigningKeys.Validate", "Account.Validate", "AccountClaims.Validate", "GenericClaims.Validate", "AuthorizationRequestClaims.Validate", "AuthorizationResponseClaims.Validate", "TimeRange.Validate", "Limits.Validate", "User.Validate", "UserClaims.Validate", "ParseServerVersion", "Operator.validateAccountServerURL", "ValidateOperatorServiceURL", "Operator.validateOperatorServiceURLs", "Operator.Validate", "OperatorClaims.Validate", "OperatorClaims.ExpectedPrefixes", "AccountClaims.ExpectedPrefixes", "UserClaims.ExpectedPrefixes", "ActivationClaims.ExpectedPrefixes", "AuthorizationRequestClaims.ExpectedPrefixes", "AuthorizationResponseClaims.ExpectedPrefixes", "GenericClaims.ExpectedPrefixes", "Decode", "v1OperatorClaims.migrateV1", "v1UserClaims.migrateV1", "v1ActivationClaims.migrateV1", "SigningKeys.Add", "v1AccountClaims.migrateV1", "UserClaims.Encode", "ActivationClaims.Encode", "OperatorClaims.Encode", "AccountClaims.Encode", "GenericClaims.Encode", "AuthorizationRequestClaims.Encode", "AuthorizationResponseClaims.Encode",
 	},
 	"V1": {
 		"Subject.HasWildCards", "Subject.IsContainedIn", "cleanSubject",
@@ -119,6 +119,9 @@ func (g *fnGen) leanType(t types.Type) string {
 		}
 		if u.Obj().Name() == "error" {
 			return "Bool"
+		}
+		if u.Obj().Pkg() != nil && u.Obj().Pkg().Path() == "github.com/nats-io/nkeys" && u.Obj().Name() == "KeyPair" {
+			return "Nat" // a key pair is an uninterpreted handle: translated code only passes it on
 		}
 		if st, ok := u.Underlying().(*types.Struct); ok {
 			if u.Obj().Pkg() != nil && u.Obj().Pkg().Path() == "net/url" && u.Obj().Name() == "URL" {
@@ -234,7 +237,7 @@ var nilableElems = map[string]bool{"Export": true, "Import": true}
 
 // opaqueFns: package functions that translated code may call but that stay outside the translation (their behaviour
 // is a parameter of the translated caller: a field of the generated structure `Opq`)
-var opaqueFns = map[string]bool{"parseHeaders": true, "decodeString": true, "loadClaims": true, "DecodeActivationClaims": true, "RenamingSubject.ToSubject": true}
+var opaqueFns = map[string]bool{"ClaimsData.encode": true, "parseHeaders": true, "decodeString": true, "loadClaims": true, "DecodeActivationClaims": true, "RenamingSubject.ToSubject": true}
 
 // foreignOpaque: functions of other packages that translated code may call; each becomes a field of `Opq`
 // (name, Lean type of the field, and how a two-value result is read)
@@ -1455,7 +1458,41 @@ func (c *fnCtx) callFn(x *ast.CallExpr, fi *fnInfo) ex {
 			parts = append(parts, "([] : Str)") // message text is not modelled
 			continue
 		}
+		if in, isI := c.g.ifaceOf(fi.params[i].Type()); isI {
+			if tn, isP := ptrToStruct(c.typeOf(args[i])); isP {
+				a := c.expr(args[i])
+				c.g.leanType(c.typeOf(args[i]))
+				if c.rawPtr[a.s] {
+					parts = append(parts, "("+a.s+".map I_"+in+"."+tn.Obj().Name()+")")
+				} else {
+					parts = append(parts, "(some (I_"+in+"."+tn.Obj().Name()+" "+a.bind()+"))")
+				}
+				continue
+			}
+		}
 		a := c.expr(args[i])
+		if i == 0 && fi.hasRecv {
+			// a method promoted from an embedded field: the receiver is that field
+			if se, ok := x.Fun.(*ast.SelectorExpr); ok {
+				if sel, ok := c.g.p.TypesInfo.Selections[se]; ok && sel.Kind() == types.MethodVal && len(sel.Index()) > 1 {
+					t := sel.Recv()
+					path := ""
+					for _, ix := range sel.Index()[:len(sel.Index())-1] {
+						if pt, ok := t.Underlying().(*types.Pointer); ok {
+							t = pt.Elem()
+						}
+						st := t.Underlying().(*types.Struct)
+						path += ".f_" + st.Field(ix).Name()
+						t = st.Field(ix).Type()
+					}
+					if a.m {
+						a = ex{"(do pure (" + a.bind() + ")" + path + ")", true}
+					} else {
+						a = ex{a.s + path, false}
+					}
+				}
+			}
+		}
 		if fi.optPtr[fi.params[i]] {
 			switch {
 			case c.rawPtr[a.s]:
@@ -1696,6 +1733,24 @@ func (c *fnCtx) stmt(b *block, s ast.Stmt) {
 				return
 			}
 		}
+		// sort.Sort(x): x is replaced by what the (opaque) sort of its type returns
+		if selName(call.Fun) == "sort.Sort" && len(call.Args) == 1 {
+			if n, ok := c.typeOf(call.Args[0]).(*types.Named); ok && n.Obj().Pkg() == c.g.p.Types {
+				q := "sort.Sort" + n.Obj().Name()
+				lt := c.g.leanType(n)
+				foreignOpaque[q] = lt + " → " + lt
+				if c.g.foreign == nil {
+					c.g.foreign = map[string]bool{}
+				}
+				if !c.g.foreign[q] {
+					c.g.foreign[q] = true
+					c.g.foreignOrd = append(c.g.foreignOrd, q)
+				}
+				a := c.expr(call.Args[0])
+				c.store(b, call.Args[0], "(opq."+strings.ReplaceAll(q, ".", "_")+" "+a.bind()+")")
+				return
+			}
+		}
 		fi := c.g.callee(call)
 		if fi == nil {
 			unsup("call statement %s", selNameAny(call.Fun))
@@ -1703,6 +1758,38 @@ func (c *fnCtx) stmt(b *block, s ast.Stmt) {
 		c.callStmt(b, call, fi, nil)
 	case *ast.ReturnStmt:
 		var vals []string
+		// return f(args): all results of a call that writes through none of its arguments
+		if len(x.Results) == 1 && len(c.fi.results) > 1 {
+			if call, ok := x.Results[0].(*ast.CallExpr); ok {
+				if fi2 := c.g.callee(call); fi2 != nil && len(fi2.results) == len(c.fi.results) {
+					for _, m := range fi2.mutated {
+						if m {
+							unsup("return of a call that writes through a parameter")
+						}
+					}
+					app := c.callFn(call, fi2)
+					c.tmpN++
+					tmp := fmt.Sprintf("__r%d", c.tmpN)
+					b.add("let %s ← %s", tmp, app.s)
+					for i := range c.fi.results {
+						pr := tmp
+						for j := 0; j < i; j++ {
+							pr += ".2"
+						}
+						if i < len(c.fi.results)-1 {
+							pr += ".1"
+						}
+						vals = append(vals, pr)
+					}
+					if c.inLoop {
+						b.add("return Ctl.ret %s", c.retTuple(vals))
+					} else {
+						b.add("return %s", c.retTuple(vals))
+					}
+					return
+				}
+			}
+		}
 		for i, r := range x.Results {
 			if c.isNilExpr(r) && isErrorType(c.fi.results[i]) {
 				vals = append(vals, "false")
